@@ -243,17 +243,30 @@ def load_known_findings(path: str = KNOWN_FINDINGS):
 def run_property(reg: Registry, ctx: Ctx):
     """Run every rule of a registry; raises AnalysisError on floors / anchors."""
     per_rule = {}
+    ctx.rule_errors = {}
     for r in reg.rules:
         ctx.current_rule = r.id
         before = len(ctx.instances)
-        r.fn(ctx)
+        # every rule runs on its own: a rule that meets a shape it does not understand (AnalysisError) must
+        # not hide the verdicts of the other rules of the property; the driver reports exit 1 if any rule
+        # found an unlisted violation, else exit 2 if any rule could not decide
+        try:
+            r.fn(ctx)
+            err = None
+        except AnalysisError as e:
+            err = str(e)
+        except RecursionError:
+            raise
+        except Exception as e:  # a crash inside one rule is an analysis error of that rule
+            import traceback
+            err = "internal error in rule: " + traceback.format_exc()[-500:]
         mine = [i for i in ctx.instances[before:] if i.verdict != "note"]
         n = len(mine)
-        if n < r.floor:
-            raise AnalysisError(
-                f"{r.id}: only {n} rule instance(s) found, floor is {r.floor} "
-                f"(an anchor moved or the rule went blind)"
-            )
+        if err is None and n < r.floor:
+            err = (f"{r.id}: only {n} rule instance(s) found, floor is {r.floor} "
+                   f"(an anchor moved or the rule went blind)")
+        if err is not None:
+            ctx.rule_errors[r.id] = err if err.startswith(r.id) else f"{r.id}: {err}"
         per_rule[r.id] = {
             "template": r.template,
             "instances": n,
@@ -261,6 +274,8 @@ def run_property(reg: Registry, ctx: Ctx):
             "violations": sum(1 for i in mine if i.verdict == "violation"),
             "desc": r.desc,
         }
+        if r.id in ctx.rule_errors:
+            per_rule[r.id]["analysis_error"] = ctx.rule_errors[r.id][:300]
     ctx.current_rule = None
     return per_rule
 
